@@ -252,6 +252,10 @@ impl<TStdlib: Stdlib, TStdIn: Input, TStdOut: Printer, TLpt1: Printer> Interpret
                             self.last_error_address = Some(i);
                             self.last_error_marks =
                                 (self.register_stack.len(), self.value_stack.len());
+                            // the handler gets a register frame of its own: between the
+                            // PopRegisters and the back jump of a NEXT the limit and the
+                            // step of the loop live in the frame on top
+                            self.register_stack.push(Registers::new());
                             i = handler_address;
                         }
                         ErrorHandler::Next => {
